@@ -386,6 +386,47 @@ func (cx *c03ctx) setValue(cell string, v *c03val) string {
 	})
 }
 
+// c03valToSet rewrites a `val` line into the `set` words the runner executes.
+func c03valToSet(w []string) ([]string, bool) {
+	if len(w) != 4 {
+		return nil, false
+	}
+	kw := strings.SplitN(w[1], ".", 2)
+	vari := ""
+	if len(kw) > 1 {
+		vari = "." + kw[1]
+	}
+	switch kw[0] {
+	case "int":
+		if _, err := strconv.ParseInt(w[3], 10, 64); err != nil {
+			return nil, false
+		}
+		return []string{"set", "int" + vari, w[2], "tv", "~", hx(w[3])}, true
+	case "uint":
+		if _, err := strconv.ParseUint(w[3], 10, 64); err != nil {
+			return nil, false
+		}
+		return []string{"set", "uint" + vari, w[2], "tv", "~", hx(w[3])}, true
+	case "bool":
+		if w[3] != "0" && w[3] != "1" {
+			return nil, false
+		}
+		return []string{"set", "bool" + vari, w[2], "tv", "b", hx(w[3])}, true
+	case "nil":
+		return []string{"set", "dflt.nil", w[2], "clr", "~", "~"}, true
+	case "str":
+		text := unhx(w[3])
+		if !utf8.ValidString(text) {
+			return nil, false
+		}
+		if n := utf8.RuneCountInString(text) - xl.TotalCellChars; n > 0 && vari == "" {
+			vari = fmt.Sprintf(".x%d", n) // the runner appends n runes to the truncated text: same stored result
+		}
+		return []string{"set", "str" + vari, w[2], "sst", c03tokS(text), "~"}, true
+	}
+	return nil, false
+}
+
 func c03parseVal(setterWord, kind, a, b string) *c03val {
 	w := strings.SplitN(setterWord, ".", 2)
 	v := &c03val{setter: w[0], kind: kind, a: a, b: b}
@@ -484,11 +525,12 @@ func (cx *c03ctx) exec(line string) {
 	if os.Getenv("C03_DEBUG") == "2" {
 		fmt.Fprintf(os.Stderr, "c03: %.120s\n", line)
 	}
+	opName := w[0]
 	emit := func(final, res string) int {
 		cx.lines = append(cx.lines, final)
 		ln := r.Op(final, res)
 		r.Case(fmt.Sprintf("%d:%d:%s", cx.tIndex, len(cx.lines), final), !strings.HasPrefix(res, "ERR") && res != "bad-op")
-		r.Stat("op:" + w[0])
+		r.Stat("op:" + opName)
 		if strings.HasPrefix(res, "ERR") {
 			r.Stat("result:ERR")
 		} else if strings.HasPrefix(res, "PANIC") {
@@ -501,6 +543,16 @@ func (cx *c03ctx) exec(line string) {
 		return ln
 	}
 	withDump := func(st string) string { return st + " | " + cx.dump() }
+	// `val <kind[.variant]> <cell> <raw input>`: a typed write whose stored tokens the *model* computes
+	// (GridPayload.lean); on this side it is executed like the corresponding `set`
+	if w[0] == "val" {
+		sw, ok := c03valToSet(w)
+		if !ok {
+			emit(line, "bad-op")
+			return
+		}
+		w = sw
+	}
 	switch w[0] {
 	case "new":
 		if cx.f != nil {
@@ -541,6 +593,9 @@ func (cx *c03ctx) exec(line string) {
 		before := cx.observe(ps)
 		st := cx.setValue(sp, v)
 		ln := emit(line, withDump(st))
+		if opName == "val" {
+			r.Stat("val:" + v.setter)
+		}
 		r.Stat("setter:" + w[1][:strings.IndexAny(w[1]+".", ".")])
 		if st == "ok" && ok {
 			cx.frameWrite(ln, ps, before, []c03pos{{c, ro}}, "set "+w[1])
@@ -1114,7 +1169,7 @@ func (g *c03gen) payload() string {
 		if vari != "" {
 			s += "." + vari
 		}
-		return fmt.Sprintf("%s tv ~ %s", s, hx(strconv.FormatInt(n, 10)))
+		return fmt.Sprintf("val %s CELL %d", s, n)
 	case 3:
 		n := []uint64{0, 1, 255, 65535, 4294967295, 18446744073709551615, 77}[rng.Intn(7)]
 		vari := []string{"", "val", "u64"}[rng.Intn(3)]
@@ -1130,7 +1185,7 @@ func (g *c03gen) payload() string {
 		if vari != "" {
 			s += "." + vari
 		}
-		return fmt.Sprintf("%s tv ~ %s", s, hx(strconv.FormatUint(n, 10)))
+		return fmt.Sprintf("val %s CELL %d", s, n)
 	case 4:
 		b := "0"
 		if rng.Bool() {
@@ -1140,7 +1195,7 @@ func (g *c03gen) payload() string {
 		if rng.Bool() {
 			s = "bool.val"
 		}
-		return fmt.Sprintf("%s tv b %s", s, hx(b))
+		return fmt.Sprintf("val %s CELL %s", s, b)
 	case 5, 6:
 		xs := []float64{0, 1, -1, 0.1, 1.0 / 3, 1e21, 1e-7, 123456.789, math.MaxFloat64, math.SmallestNonzeroFloat64, -2.5, 1e15 + 0.5, 100}
 		x := xs[rng.Intn(len(xs))]
@@ -1166,31 +1221,31 @@ func (g *c03gen) payload() string {
 				x = 1.5
 			}
 		}
-		return fmt.Sprintf("float.%x_%d_%d%s tv ~ %s", math.Float64bits(x), prec, bs, val, hx(strconv.FormatFloat(x, 'f', prec, bs)))
+		return fmt.Sprintf("set float.%x_%d_%d%s CELL tv ~ %s", math.Float64bits(x), prec, bs, val, hx(strconv.FormatFloat(x, 'f', prec, bs)))
 	case 7, 8, 9, 10:
 		s := c03strings[rng.Intn(len(c03strings))]
 		if rng.Chance(20) {
 			s = fmt.Sprintf("s%d", rng.Intn(6)) // repeated strings: shared-string dedup
 		}
 		vari := []string{"", "", ".val", ".bytes"}[rng.Intn(4)]
-		return fmt.Sprintf("str%s sst %s ~", vari, c03tokS(s))
+		return fmt.Sprintf("val str%s CELL %s", vari, hx(s))
 	case 11:
-		return "dflt.nil clr ~ ~"
+		return "val nil CELL ~"
 	case 12:
 		s := []string{"", "12", "-3.5", "abc", "1e3", "0x1F", " 7", "2024-01-01", "1,5", "00"}[rng.Intn(10)]
 		switch {
 		case s == "":
-			return "dflt clr ~ ~"
+			return "set dflt CELL clr ~ ~"
 		case xl.VerifIsNumeric(s):
-			return fmt.Sprintf("dflt num %s ~", hx(s))
+			return fmt.Sprintf("set dflt CELL num %s ~", hx(s))
 		}
-		return fmt.Sprintf("dflt inl %s ~", hx(s))
+		return fmt.Sprintf("set dflt CELL inl %s ~", hx(s))
 	case 13:
 		s := []string{"rich", "ab", "hello world", "R1"}[rng.Intn(4)]
-		return fmt.Sprintf("rich sst %s ~", "R"+hx(s))
+		return fmt.Sprintf("set rich CELL sst %s ~", "R"+hx(s))
 	default:
 		s := c03strings[rng.Intn(len(c03strings))]
-		return fmt.Sprintf("str sst %s ~", c03tokS(s))
+		return fmt.Sprintf("val str CELL %s", hx(s))
 	}
 }
 
@@ -1396,7 +1451,7 @@ func (g *c03gen) transcript(mode, nOps int) {
 		case k < mergeW+42:
 			cx.exec(fmt.Sprintf("hl %s %s", hx(cell), hx("Sheet1!A1")))
 		default:
-			cx.exec(fmt.Sprintf("set %s", strings.Replace(g.payload(), " ", " "+hx(cell)+" ", 1)))
+			cx.exec(strings.Replace(g.payload(), "CELL", hx(cell), 1))
 		}
 		if i%10 == 9 && !cx.isFar && cx.box[0] != 0 {
 			cx.exec(fmt.Sprintf("obs %d %d %d %d", max(1, cx.box[0]-2), max(1, cx.box[1]-2), cx.box[2]+2, cx.box[3]+2))
@@ -1440,6 +1495,8 @@ var c03witnesses = [][]string{
 	{"new 1", "seq r XFC1 4 int.val tv ~ " + hx("1") + " int.val tv ~ " + hx("2") + " int.val tv ~ " + hx("3") + " int.val tv ~ " + hx("4")},
 	{"new 1", "seq c A1048575 3 int.val tv ~ " + hx("1") + " int.val tv ~ " + hx("2") + " int.val tv ~ " + hx("3")},
 	{"new 2", "sty B2 C3 5", "sty C3 B2 1", "sty B2 B2 -1", "set int B2 tv ~ " + hx("5"), "gsty B2", "set dflt.nil B2 clr ~ ~", "gsty B2"},
+	{"new 1", "val str A1 " + hx(strings.Repeat("y", 32772)), "val str A2 " + hx(strings.Repeat("é", 32767)+"zz"), "val str A3 " + hx("_x0041_"),
+		"val str A4 " + hx("_x0041_"), "val int B1 -9223372036854775808", "val uint B2 18446744073709551615", "val bool B3 1", "val nil A3 ~", "val str B4 -"},
 	{"new 1", "set dflt A1 inl " + hx("abc") + " ~", "set dflt A1 num " + hx("5") + " ~", "set int A1 tv ~ " + hx("6")},
 }
 
@@ -1455,7 +1512,7 @@ func c03encodeWitness(g *c03gen, line string) string {
 	case "mrg", "unm", "sty":
 		enc(1)
 		enc(2)
-	case "set", "seq":
+	case "set", "seq", "val":
 		enc(2)
 	case "get", "gsty", "frm", "hl":
 		enc(1)
